@@ -4,6 +4,7 @@ mod fs;
 mod gen;
 mod ic;
 mod run;
+mod span;
 mod state;
 mod wire;
 
@@ -109,6 +110,27 @@ fn main() {
                             }
                         }
                     },
+                }
+                writeln!(out, "{s}").unwrap();
+            }
+        }
+        "span" => {
+            for line in input.lines() {
+                let line = line.unwrap();
+                let mut parts = line.split(';');
+                let kind = parts.next().unwrap_or("");
+                let ops: Vec<&str> = parts.collect();
+                let mut s = String::new();
+                match span::run_span(kind, &ops) {
+                    None => s.push_str("unknown-entry"),
+                    Some(obs) => {
+                        for (i, o) in obs.iter().enumerate() {
+                            if i > 0 {
+                                s.push(';');
+                            }
+                            o.show(&mut s);
+                        }
+                    }
                 }
                 writeln!(out, "{s}").unwrap();
             }
